@@ -149,6 +149,10 @@ func genCase(maxSteps int) func(t *rapid.T) Case {
 			}
 			a.Reps = rapid.IntRange(2, 3).Draw(t, "reps")
 			c.Actions = append(c.Actions, a)
+			if a.Kind == "anon" && rapid.Bool().Draw(t, "anonthenhint") {
+				// the blank import is followed by a hint for the same path, before anything refers to it
+				c.Actions = append(c.Actions, Action{Kind: "hint_alias", Path: a.Path, Name: rapid.SampledFrom([]string{".", ".", "al", "d"}).Draw(t, "anonhint"), Reps: 2})
+			}
 		}
 		return c
 	}
